@@ -147,6 +147,16 @@ def site_of(kind: str, op: str) -> str:
     return f"{CLS.get(kind, kind)}.{op}"
 
 
+def apply_watched(obj, ev):
+    """apply, and report an operand whose arrays differ afterwards (conversions and queries are pure)"""
+    import c05
+    snap = c05.snapshot(obj)
+    res, ret = apply(obj, ev)
+    if c05.snapshot(obj) != snap:
+        return None, {"kind": "operand-changed"}
+    return res, ret
+
+
 def record(stim: dict) -> dict:
     import bind
     pres = stim.get("pres", {})
@@ -154,13 +164,13 @@ def record(stim: dict) -> dict:
     tr = {"init": stim["init"], "pres": pres, "ev": []}
     for ev in stim["ev"]:
         try:
-            res, ret = apply(obj, ev)
+            res, ret = apply_watched(obj, ev)
         except bind.Inexact as e:
             res, ret = None, {"kind": "inexact", "msg": str(e)[:200]}
         except Exception as e:
             res, ret = None, {"kind": "raised", "msg": f"{type(e).__name__}: {e}"[:200]}
         tr["ev"].append({"op": ev["op"], "args": ev["args"], "ret": ret})
-        if ret["kind"] in ("inexact", "raised"):
+        if ret["kind"] in ("inexact", "raised", "operand-changed"):
             break
         if ev["op"] not in QUERIES:
             obj = res
@@ -179,7 +189,7 @@ def replay(b: dict) -> dict:
         nev += 1
         nontrivial.append(json.dumps([pre, ev["op"], ev["args"]], sort_keys=True))
         try:
-            res, ret = apply(obj, ev)
+            res, ret = apply_watched(obj, ev)
         except bind.Inexact as e:
             res, ret = None, {"kind": "inexact", "msg": str(e)[:200]}
         except Exception as e:
